@@ -980,6 +980,19 @@ func (g *gen) accountOp() {
 	}
 }
 
+// delegated: whole stake units d has delegated to v (0 if the list is damaged and cannot be read)
+func delegated(v *state.Validator, d common.Address) (have int64) {
+	defer func() {
+		if recover() != nil {
+			have = 0
+		}
+	}()
+	if df := v.GetDelegationFrom(d); df != nil {
+		have = new(big.Int).Div(df.Token, params.StakeUint).Int64()
+	}
+	return
+}
+
 func (g *gen) stakeTok() (string, string) {
 	r := g.r
 	stake := fmt.Sprint(r.Intn(20))
@@ -1004,10 +1017,7 @@ func (g *gen) validatorOp(findings bool) {
 		d := uint64(501 + r.Intn(3))
 		amount := int64(r.Intn(5) - 2)
 		if v := g.e.st.GetValidatorByMainAddr(valAddr(id)); v != nil && amount < 0 {
-			have := int64(0)
-			if df := v.GetDelegationFrom(addrOf(d)); df != nil {
-				have = new(big.Int).Div(df.Token, params.StakeUint).Int64()
-			}
+			have := delegated(v, addrOf(d))
 			if -amount > have {
 				amount = -have
 			}
